@@ -151,7 +151,7 @@ def judge(rep, cases, wd, name='TraceJudge'):
 
 
 # hand corruptions of passing observations: the judge must name the clause (binding demonstration, run with every check)
-def corruptions(cases, verdicts, rnd):
+def corruptions(cases, verdicts, rnd, strict=True):
     def pick(pred):
         idx = [i for i, c in enumerate(cases) if verdicts[i] == 'ok' and not c['soft'] and not c['op']['cmio'] and pred(c)]
         return cases[rnd.choice(idx)] if idx else None
@@ -162,7 +162,9 @@ def corruptions(cases, verdicts, rnd):
 
     def add(c, want, f):
         if c is None:
-            raise MachineryError('E06: no passing case to corrupt for clause %s' % want)
+            if strict:
+                raise MachineryError('E06: no passing case to corrupt for clause %s' % want)
+            return      # a tree that fails everywhere in this class: the violations are the result
         d = clone(c)
         f(d)
         d['corrupt'] = want
@@ -216,14 +218,6 @@ def run(tier):
     verdicts, stats = judge(rep, cases, wd)
     log('E06: judged at %.1fs' % timer.s())
 
-    # ---- binding demonstration: corrupted copies of passing observations must fail with the clause that names the corruption
-    bad = corruptions(cases, verdicts, random.Random(sd * 31 + 7))
-    bv, _ = judge(rep, bad, wd, 'TraceJudge-corrupted')
-    for d, v in zip(bad, bv):
-        want = d['corrupt']
-        if v == 'ok' or v.startswith('drift:') or (want != '*' and not (v.endswith(want) or want.endswith('-') and want in v)):
-            raise MachineryError('E06: a hand-corrupted observation (%s) was judged %r' % (d['corrupt'], v))
-
     # ---- verdicts
     by_idx = collections.defaultdict(dict)
     for c, v in zip(cases, verdicts):
@@ -256,6 +250,14 @@ def run(tier):
             key = ck
         rep.violation(key, 'trace.py %s [%s simulator]: %s' % (' '.join(c['cmd'])[:900], c['impl'], v),
                       {'gen': {'seed': sd, 'idx': c['idx'], 'tier': tier, 'secondary': c['secondary']}, 'clause': v, 'case': small(c)})
+
+    # ---- binding demonstration: corrupted copies of passing observations must fail with the clause that names the corruption
+    bad = corruptions(cases, verdicts, random.Random(sd * 31 + 7), strict=not rep.violations)
+    bv, _ = judge(rep, bad, wd, 'TraceJudge-corrupted')
+    for d, v in zip(bad, bv):
+        want = d['corrupt']
+        if v == 'ok' or v.startswith('drift:') or (want != '*' and not (v.endswith(want) or want.endswith('-') and want in v)):
+            raise MachineryError('E06: a hand-corrupted observation (%s) was judged %r' % (d['corrupt'], v))
 
     for t in ths:
         t.join()
